@@ -278,4 +278,33 @@ Proof.
   rewrite Hv'. eexists. split; [reflexivity|]. simpl. repeat split; auto.
   unfold pf2_shape. simpl. unfold div_cols at 1. now rewrite map_length.
 Qed.
+
+(* end to end: the decompressed OBJECT (constructor verdict included) represents loading x compressed slice *)
+Theorem svd_decompress_api_entry (x : pf2_operand) Ls A B C :
+  pf2_fs x = [A; B; C] ->
+  pf2_validb Op close (pf2_raw_w x) (pf2_fs x) (pf2_ps x) = true ->
+  length (pf2_ps x) <= length Ls -> length B <= ncols A ->
+  (forall i Lm, i < length (pf2_ps x) -> nth i Ls None = Some Lm -> Lm <> [] /\ ortho Op (length (nth i (pf2_ps x) [])) Lm) ->
+  exists o, svd_decompress_api Op close x Ls = Ok o /\ pfo_fs o = [A; B; C] /\
+    forall i j k, i < length (pf2_ps x) ->
+      match nth i Ls None with
+      | None => pf2_entry Op (pfo_w o) A B C (pfo_ps o) i j k = pf2_entry Op (pfo_w o) A B C (pf2_ps x) i j k
+      | Some Lm => j < length Lm ->
+          pf2_entry Op (pfo_w o) A B C (pfo_ps o) i j k =
+          Sum (length (nth i (pf2_ps x) [])) (fun t => mget Op Lm j t *f pf2_entry Op (pfo_w o) A B C (pf2_ps x) i t k)
+      end.
+Proof.
+  intros Hfs Hv Hl HB HL. destruct (svd_decompress_api_accepts x Ls Hv Hl HL) as (o & E & Ew & Ef & Ep & _).
+  exists o. split; [exact E|]. split; [now rewrite Ef|]. intros i j k Hi. rewrite Ep.
+  assert (Es : svd_decompress Op (pfo_w o) A B C (pf2_ps x) Ls = Ok (pfo_w o, [A; B; C], decompress_projs Op (pf2_ps x) Ls)).
+  { unfold svd_decompress. apply Nat.leb_le in Hl. now rewrite Hl. }
+  pose proof (svd_decompress_entry Op Rth _ _ _ _ _ _ _ _ _ _ _ i j k Es Hi) as H.
+  destruct (nth i Ls None) as [Lm|]; [|exact H]. intros Hj. apply H; auto.
+  (* the projection has `rank` columns *)
+  rewrite Hfs in Hv. unfold pf2_validb in Hv.
+  apply andb_true_iff in Hv. destruct Hv as [Hv _]. apply andb_true_iff in Hv. destruct Hv as [Hv _].
+  apply andb_true_iff in Hv. destruct Hv as [Hv _]. apply andb_true_iff in Hv. destruct Hv as [_ HPs].
+  rewrite forallb_forall in HPs. specialize (HPs (nth i (pf2_ps x) []) (nth_In _ _ Hi)).
+  unfold proj_okb in HPs. apply andb_true_iff in HPs. destruct HPs as [HP _]. rewrite (matb_ncols _ _ HP). exact HB.
+Qed.
 End V1.
